@@ -732,3 +732,54 @@ pub fn str_to_string(s: &str) -> (r: String)
 {
     s.to_string()
 }
+
+/// put_rel from pointwise facts about the buffer (isolated query; the caller establishes the map-level facts)
+pub proof fn lemma_put_rel(a: Screen, b: Screen, c: char, w: int)
+    requires
+        wf(a), a.cursor.x < a.columns, w == 1 || w == 2,
+        same_but_cells_dirty_cx(b, a), b.dirty@ == a.dirty@, b.cursor.x == vmin(a.cursor.x + w, a.columns as int),
+        forall|yy: u32| #![trigger b.buffer@.contains_key(yy)] yy != a.cursor.y ==> b.buffer@.contains_key(yy) == a.buffer@.contains_key(yy),
+        forall|yy: u32| #![trigger b.buffer@[yy]] yy != a.cursor.y && a.buffer@.contains_key(yy) ==> b.buffer@[yy] == a.buffer@[yy],
+        b.buffer@.contains_key(a.cursor.y),
+        forall|xx: u32| #![trigger b.buffer@[a.cursor.y]@.contains_key(xx)] xx != a.cursor.x && !(w == 2 && xx == a.cursor.x + 1 && xx < a.columns) ==>
+            b.buffer@[a.cursor.y]@.contains_key(xx) == (a.buffer@.contains_key(a.cursor.y) && a.buffer@[a.cursor.y]@.contains_key(xx)),
+        forall|xx: u32| #![trigger b.buffer@[a.cursor.y]@[xx]] xx != a.cursor.x && !(w == 2 && xx == a.cursor.x + 1 && xx < a.columns)
+            && a.buffer@.contains_key(a.cursor.y) && a.buffer@[a.cursor.y]@.contains_key(xx) ==> b.buffer@[a.cursor.y]@[xx] == a.buffer@[a.cursor.y]@[xx],
+        b.buffer@[a.cursor.y]@.contains_key(a.cursor.x) && cv(b.buffer@[a.cursor.y]@[a.cursor.x]) == attr_cell(a, seq![c]),
+        w == 2 && a.cursor.x + 1 < a.columns ==> b.buffer@[a.cursor.y]@.contains_key((a.cursor.x + 1) as u32)
+            && cv(b.buffer@[a.cursor.y]@[(a.cursor.x + 1) as u32]) == attr_cell(a, ""@),
+    ensures
+        put_rel(a, c, w, b),
+{
+    assert forall|y: u32, x: u32| #![trigger obs(b, y, x)] y < a.lines && x < a.columns implies obs(b, y, x) == (
+        if y == a.cursor.y && x == a.cursor.x { attr_cell(a, seq![c]) }
+        else if w == 2 && y == a.cursor.y && x == a.cursor.x + 1 { attr_cell(a, ""@) }
+        else { obs(a, y, x) }) by {
+        if y != a.cursor.y && a.buffer@.contains_key(y) { assert(b.buffer@[y] == a.buffer@[y]); }
+    }
+}
+
+/// comb_rel from pointwise facts about the buffer (isolated query)
+pub proof fn lemma_comb_rel(a: Screen, b: Screen, c: char)
+    requires
+        wf(a),
+        same_but_cells_dirty(b, a),
+        b.dirty@ == (if a.cursor.x == 0 && a.cursor.y > 0 { a.dirty@.insert((a.cursor.y - 1) as u32) } else { a.dirty@ }),
+        // rows: nothing disappears; new rows are the cursor row and (if any) the target row
+        forall|yy: u32| #![trigger b.buffer@.contains_key(yy)] a.buffer@.contains_key(yy) ==> b.buffer@.contains_key(yy),
+        // every cell other than the target keeps its observable value
+        forall|yy: u32, xx: u32| #![trigger cell_at(b.buffer@, b.mode@.contains(DECSCNM), yy, xx)] yy < a.lines && xx < a.columns
+            && !(!(a.cursor.x == 0 && a.cursor.y == 0)
+                 && yy == (if a.cursor.x > 0 { a.cursor.y as int } else { a.cursor.y - 1 })
+                 && xx == (if a.cursor.x > 0 { a.cursor.x - 1 } else { a.columns - 1 }))
+            ==> obs(b, yy, xx) == obs(a, yy, xx),
+        // the target cell
+        !(a.cursor.x == 0 && a.cursor.y == 0) ==> ({
+            let ty = (if a.cursor.x > 0 { a.cursor.y as int } else { a.cursor.y - 1 }) as u32;
+            let tx = (if a.cursor.x > 0 { a.cursor.x - 1 } else { a.columns - 1 }) as u32;
+            obs(b, ty, tx) == (Cell { data: nfc(obs(a, ty, tx).data).push(c), ..obs(a, ty, tx) })
+        }),
+    ensures
+        comb_rel(a, c, b),
+{
+}
